@@ -38,9 +38,6 @@ var vC15Rules = []vC15Rule{
 	{"HEAD!=\\.html$", false, "HEAD", true, "\\.html$"},
 }
 
-var vC15SafePath = regexp.MustCompile(`^/[A-Za-z0-9/._~!$&'()*+,;=:@-]*$`)
-var vC15Query = regexp.MustCompile(`^[A-Za-z0-9/._~!$&'()*+,;=:@?%-]*$`)
-
 // verif: unwind=4 strlen=12
 func vh_C15_routes() {
 	k := ndChoice("rule", len(vC15Rules))
